@@ -67,6 +67,63 @@ pub trait Scanner: Copy + PartialEq + Debug + Send + Sync + 'static {
     fn predicate(cn: ControllerNumber) -> bool;
     /// the statement's own set of contributing controller numbers
     fn contributes(n: u8) -> bool;
+    const POLLS: bool = false;
+    /// a new scanner (the timeout only matters for the polling scanner)
+    fn make(timeout_ms: u64) -> Self;
+    fn poll_ch(&mut self, _ch: u8) -> Option<Tup> {
+        None
+    }
+}
+
+/// Set the mock clock (no-op in configurations without the polling scanner).
+pub fn set_clock(_now: u64) {
+    #[cfg(feature = "polling")]
+    helgoboss_midi::verif_hooks::set_now_millis(_now);
+}
+
+/// 128-bit fingerprint of a value's derived `Debug` rendering, with every mock instant
+/// `Instant(t)` rewritten to its age `min(now - t, cap)`.
+pub fn debug_fp<T: Debug>(x: &T, now: u64, cap: u64) -> u128 {
+    use std::fmt::Write as _;
+    thread_local! {
+        static BUF: std::cell::RefCell<(String, Vec<u8>)> = std::cell::RefCell::new((String::new(), Vec::new()));
+    }
+    BUF.with(|b| {
+        let mut b = b.borrow_mut();
+        let (s, out) = &mut *b;
+        s.clear();
+        out.clear();
+        write!(s, "{:?}", x).unwrap();
+        let mut rest: &str = s.as_str();
+        let pat = "Instant(";
+        while let Some(p) = rest.find(pat) {
+            out.extend_from_slice(rest[..p].as_bytes());
+            let after = &rest.as_bytes()[p + pat.len()..];
+            let mut j = 0;
+            let mut t: u64 = 0;
+            while j < after.len() && after[j].is_ascii_digit() {
+                t = t * 10 + (after[j] - b'0') as u64;
+                j += 1;
+            }
+            let age = now.saturating_sub(t).min(cap);
+            out.extend_from_slice(b"Age(");
+            let mut digits = [0u8; 20];
+            let mut k = 20;
+            let mut a = age;
+            loop {
+                k -= 1;
+                digits[k] = b'0' + (a % 10) as u8;
+                a /= 10;
+                if a == 0 {
+                    break;
+                }
+            }
+            out.extend_from_slice(&digits[k..]);
+            rest = &rest[p + pat.len() + j..];
+        }
+        out.extend_from_slice(rest.as_bytes());
+        xs::fp128(out)
+    })
 }
 
 impl Scanner for ControlChange14BitMessageScanner {
@@ -83,10 +140,16 @@ impl Scanner for ControlChange14BitMessageScanner {
     fn contributes(n: u8) -> bool {
         n < 64
     }
+    fn make(_t: u64) -> Self {
+        Self::new()
+    }
 }
 
 impl Scanner for ParameterNumberMessageScanner {
     const NAME: &'static str = "ParameterNumberMessageScanner";
+    fn make(_t: u64) -> Self {
+        Self::new()
+    }
     fn feed_msg<M: ShortMessage>(&mut self, m: &M) -> [Option<Tup>; 2] {
         [self.feed(m).map(|x| tup_pnm(&x)), None]
     }
@@ -104,6 +167,13 @@ impl Scanner for ParameterNumberMessageScanner {
 #[cfg(feature = "polling")]
 impl Scanner for PollingParameterNumberMessageScanner {
     const NAME: &'static str = "PollingParameterNumberMessageScanner";
+    const POLLS: bool = true;
+    fn make(t: u64) -> Self {
+        Self::new(core::time::Duration::from_millis(t))
+    }
+    fn poll_ch(&mut self, c: u8) -> Option<Tup> {
+        self.poll(ch(c)).map(|m| tup_pnm(&m))
+    }
     fn feed_msg<M: ShortMessage>(&mut self, m: &M) -> [Option<Tup>; 2] {
         let r = self.feed(m);
         [r[0].map(|x| tup_pnm(&x)), r[1].map(|x| tup_pnm(&x))]
